@@ -452,7 +452,8 @@ def cpu_only(net, rng, x, kind=None):
     kind = kind or rng.choice(["CUSTOM", "FLOAT_ROUNDTRIP", "SQUARED_DIFFERENCE_SELF", "L2_NORMALIZATION"])
     if kind == "CUSTOM":
         y = net.tensor(list(x.shape), x.dtype, x.scale, x.zp)
-        net.op("CUSTOM", [x], [y], custom_code="VerifThirdPartyOp", custom_options=b"\x01\x02\x03verif\x00")
+        code = rng.choice(["VerifThirdPartyOp", "VerifOtherOp", "AnotherVendorOp"])
+        net.op("CUSTOM", [x], [y], custom_code=code, custom_options=b"\x01\x02\x03verif\x00" if code[0] == "V" else b"")
         return y
     if kind == "FLOAT_ROUNDTRIP":
         f = net.tensor(list(x.shape), "float32")
@@ -807,9 +808,83 @@ def fam_weights_heavy(rng):
     return net
 
 
+def cpu_join(net, rng, xs):
+    """a CPU-only operator reading several tensors (keeps them alive across what lies between)"""
+    y = net.tensor(list(xs[0].shape), xs[0].dtype, xs[0].scale, xs[0].zp)
+    net.op("CUSTOM", list(xs), [y], custom_code=rng.choice(["VerifJoinOp", "VerifThirdPartyOp"]), custom_options=b"join")
+    return y
+
+
+def fam_ew_dag(rng):
+    """small DAGs of elementwise / activation operators with constants, broadcasts, both operand orders and
+    tensors that stay alive because a later CPU operator reads them: live-range fusing, in-place reuse (C03, C12)"""
+    net = Net("ew_dag")
+    dt = rng.choice(["int8", "int8", "uint8", "int16"])
+    h, w, c = rng.randrange(1, 12), rng.randrange(1, 12), rng.choice([1, 4, 16, 32])
+    x = _inp(net, rng, [1, h, w, c], dt)
+    pool_t = [x]
+    if rng.random() < 0.7:
+        pool_t.append(unary(net, rng, rng.choice(["RELU", "RELU6"]) if dt != "int16" else "RELU", x))
+    for _ in range(rng.randrange(1, 5)):
+        a = rng.choice(pool_t)
+        kindb = rng.choice(["const_bcast", "const_full", "tensor", "tensor", "scalar"])
+        if kindb == "const_bcast":
+            b = const_like(net, rng, [1, 1, 1, c], dt)
+        elif kindb == "const_full":
+            b = const_like(net, rng, [1, h, w, c], dt)
+        elif kindb == "scalar":
+            b = const_like(net, rng, [1, 1, 1, 1], dt)
+        else:
+            b = rng.choice(pool_t)
+        opk = rng.choice(["ADD", "ADD", "SUB", "MUL", "MINIMUM", "MAXIMUM"])
+        ops = [a, b] if rng.random() < 0.5 else [b, a]
+        y = elementwise(net, rng, opk, ops[0], ops[1], out_shape=[1, h, w, c])
+        pool_t.append(y)
+        if rng.random() < 0.25 and dt != "int16":
+            pool_t.append(unary(net, rng, rng.choice(["LOGISTIC", "TANH"]), y))
+    # a CPU operator that reads two or three of the tensors produced so far, then maybe more NPU work
+    k = min(len(pool_t), rng.choice([2, 2, 3]))
+    picks = rng.sample(pool_t, k)
+    j = cpu_join(net, rng, picks)
+    outs = [j]
+    if rng.random() < 0.5:
+        outs = [elementwise(net, rng, "ADD", j, rng.choice(pool_t), out_shape=[1, h, w, c])]
+    if rng.random() < 0.3:
+        outs.append(rng.choice(pool_t[1:]) if len(pool_t) > 1 else j)
+    seen = []
+    for o in outs:
+        if o not in seen:
+            seen.append(o)
+    net.output(*seen)
+    return net
+
+
+def fam_multi_custom(rng):
+    """several different third-party custom operators and operator versions in one model (writer tables, C11, C14)"""
+    net = Net("multi_custom")
+    dt = rng.choice(["int8", "uint8"])
+    h, w, c = rng.randrange(2, 10), rng.randrange(2, 10), rng.choice([4, 8, 16])
+    x = _inp(net, rng, [1, h, w, c], dt)
+    codes = ["SeedOpB", "SeedOpA", "ZVendorOp", "AVendorOp"]
+    rng.shuffle(codes)
+    t = x
+    branches = []
+    for code in codes[:rng.randrange(2, 5)]:
+        y = net.tensor(list(t.shape), t.dtype, t.scale, t.zp)
+        net.op("CUSTOM", [t], [y], custom_code=code, custom_options=code.encode())
+        branches.append(y)
+        if rng.random() < 0.5:
+            t = conv2d(net, rng, y, c, (1, 1))
+    s = branches[0]
+    for b in branches[1:]:
+        s = elementwise(net, rng, "ADD", s, b)
+    net.output(s)
+    return net
+
+
 FAMILIES = {
     "conv_chain": fam_conv_chain, "conv_chain_big": lambda rng: fam_conv_chain(rng, big=True), "single": fam_single_op,
-    "diamond": fam_diamond, "mixed_cpu": fam_mixed_cpu, "unsupported": fam_unsupported, "lut_heavy": fam_lut_heavy, "weights_heavy": fam_weights_heavy,
+    "diamond": fam_diamond, "mixed_cpu": fam_mixed_cpu, "unsupported": fam_unsupported, "lut_heavy": fam_lut_heavy, "weights_heavy": fam_weights_heavy, "ew_dag": fam_ew_dag, "multi_custom": fam_multi_custom,
 }
 
 
